@@ -7,6 +7,8 @@ def jobs(tier):
     J("obj.low", {"LIBKIND": 1, "ORG": "0x1000"})
     J("ar1.high", {"LIBKIND": 2, "ORG": "0x9d001000"})
     J("ar2.low", {"LIBKIND": 3, "ORG": "0x1000"})
+    J("obj.extrasec_after", {"LIBKIND": 1, "ORG": "0x1000", "EXTRASEC": 1})
+    J("ar2.extrasec_before", {"LIBKIND": 3, "ORG": "0x1000", "EXTRASEC": 2})
     J("unsupported.be", {"UNSUPPORTED": 1})
     J("unsupported.elf64", {"UNSUPPORTED": 2})
     J("unsupported.trunc", {"UNSUPPORTED": 3})
@@ -17,6 +19,8 @@ def jobs(tier):
         J("obj.be", {"LIBKIND": 1, "ORG": "0x1000", "BIGEND": 1}, 2400)
         J("ar1.low", {"LIBKIND": 2, "ORG": "0x1000"}, 2400)
         J("ar2.high.be", {"LIBKIND": 3, "ORG": "0x9d001000", "BIGEND": 1}, 2400)
+        J("obj.extrasec_before.high", {"LIBKIND": 1, "ORG": "0x9d001000", "EXTRASEC": 2}, 2400)
+        J("ar1.extrasec_after.be", {"LIBKIND": 2, "ORG": "0x1000", "EXTRASEC": 1, "BIGEND": 1}, 2400)
         J("ar2.sizes", {"LIBKIND": 3, "ORG": "0x0", "NA": 4, "NB": 1, "NC": 3}, 2400)
     return js
 
@@ -26,7 +30,7 @@ def main(tier):
         "system with a crafted ELF32 relocatable object (or ar archive of such objects) whose instruction words are symbolic 32-bit values and whose call sites (position inside fa/fb, target symbol among fa/fb/fc/undefined) and the "
         "program's calls are chosen by the engine; Z3 decides on every path that the output image is the program followed by exactly the reference closure of functions, each once, byte-identical to the object file, "
         "with every jal (program and relocated) bound to the address where the named function was placed, regions disjoint; undefined/unknown symbols and unsupported object files must end in a non-zero exit status with an error message.",
-        ["objects: little-endian ELF32, sections .text/.symtab/.strtab/.rel.text/.shstrtab, three global functions of 1-4 words, R_MIPS_26 relocations against named global symbols (section-relative relocations of local calls outside the claim)",
+        ["objects: little-endian ELF32, sections .text/.symtab/.strtab/.rel.text/.shstrtab, optionally the further sections .text.startup, .data and .rel.text.startup (with relocations at the same offsets naming another symbol) placed after or before the ones they resemble; three global functions of 1-4 words, R_MIPS_26 relocations against named global symbols (section-relative relocations of local calls outside the claim)",
          "only relocated words are jal instructions (assumed on the symbolic words); the jal target field of relocated words is symbolic",
          "targets: .mips32 little- and big-endian text; origins 0x0, 0x1000 and 0x9d001000 (a PIC32 flash address above 256 MiB)",
          "archives: one member, or an index member plus two members with a cross-member call; long member names / GNU name tables outside the bound",
